@@ -192,3 +192,64 @@ def check_c12(prop, tier, seed):
         return 1
     log("[C12] held on everything explored (%.1fs)" % (time.time() - t0))
     return 0
+
+
+def check_c13(prop, tier, seed):
+    t0 = time.time()
+    wd = vlib.workdir("%s-%s" % (prop, tier))
+    vlib.build_harness()
+    cfg = vlib.tlc_cfg("Spec", {}, ["SampleInRange", "TimeoutBounded", "LimitIsU64", "CounterIsU64"]).replace("CONSTANTS\n", "")
+    mc = vlib.run_tlc("DistClamp", cfg, wd, "mc", workers=4, timeout=600)
+    log("[C13] MC DistClamp: %d class pairs (raw+start, max), %.1fs%s" % (
+        mc["distinct"], mc["wall"], " VIOLATED " + mc["violated"] if mc["violated"] else ""))
+    if mc["error"] or mc["violated"] or mc["distinct"] == 0:
+        raise ToolError("model checking of DistClamp failed: %s" % mc["out"])
+    recs = os.path.join(wd, "recs.ndjson")
+    streams = 6 if tier == "quick" else 40
+    pr = vlib.run_bin("dist_cases", ["--seed", seed, "--streams", streams, "--out", recs], timeout=3000)
+    if pr.returncode != 0:
+        raise ToolError("dist_cases failed: %s" % pr.stdout[-2000:])
+    s = json.loads(pr.stdout.strip().splitlines()[-1])
+    cfg = vlib.tlc_cfg("TSpec", {}).replace("CONSTANTS\n", "")
+    tv = vlib.trace_validate("DistTrace", cfg, recs, wd, "tv", shards=8)
+    if tv["incomplete"]:
+        raise ToolError("trace validation did not finish: %s" % tv["incomplete"])
+    known = [k for k in vlib.load_known() if k.get("property") == prop and k.get("status") == "known"]
+    known_sigs = {k["signature"] for k in known}
+    seen = set()
+    bad = []
+    for v in tv["verdicts"]:
+        if v["sig"] in known_sigs:
+            seen.add(v["sig"])
+        else:
+            bad.append(v)
+    log("[C13] dist_cases: %s; %d records judged by DistTrace in %.1fs" % (s, tv["lines"], tv["wall"]))
+    for k in known:
+        log("KNOWN-FINDING: property=%s %s [signature %s, %s in this run]" % (
+            prop, k["description"], k["signature"], "seen" if k["signature"] in seen else "not seen"))
+    samples = []
+    with open(recs) as f:
+        for i, line in enumerate(f):
+            r = json.loads(line)
+            if r.get("k") == "sample" and len(samples) < 4 and i % 97 == 0:
+                samples.append({k: r[k] for k in ("desc", "cls", "words")})
+            if r.get("k") == "clamp" and len(samples) < 2:
+                samples.append({k: r[k] for k in ("x", "mx", "sample", "timeout", "limit", "counter")})
+    coverage = dict(states=mc["distinct"], transitions=mc["states"],
+                    traces_validated_against_impl=s["clamp_records"] + s["sample_records"],
+                    evaluations=s["clamp_records"] + s["sample_records"], distinct_nontrivial=s["validated_dists"],
+                    rule="clamp: every class pair (raw+start, max) x two realisations on the real code; sample: 11 families x parameter corners x 7 start/max corners admitted by validation x streams (prefix 0/1/2/4/8 of an extreme word, then Xoshiro); non-trivial = distinct validated distributions",
+                    samples=samples or ["(none)"], exhaustive=False, driver_summary=s)
+    vlib.write_evidence(prop, tier, seed, "model_checking", coverage, time.time() - t0, len(bad), [
+        "termination and speed of rand_distr's samplers are observed under a 3 s watchdog, not modelled",
+        "+inf is accepted as 'at least 0' when no maximum is set (DESIGN.md section 9)"])
+    if bad:
+        import fwcheck
+        v = bad[0]
+        path = vlib.write_replay(prop, dict(property=prop, scenario=v["id"], signature=v["sig"],
+                                            actual=fwcheck.scenario_lines(recs, v["id"])))
+        log("[C13] %d records rejected; first group %s (%s)" % (len(bad), v["id"], v["sig"]))
+        print("VIOLATION property=%s replay=%s" % (prop, path), flush=True)
+        return 1
+    log("[C13] held on everything explored (%.1fs)" % (time.time() - t0))
+    return 0
